@@ -8,12 +8,11 @@ From H3V Require Import Base.Bytes Gen.GenCodes Gen.GenSharedErr Spec.FirstError
 (* the facts generated from today's source are the ones the proofs are about *)
 Theorem C05_generated_facts : liveness_cfg gen_cfg.
 Proof. exact gen_facts_ok. Qed.
-(* ... including the stream side: all paths of CloseStream / the frame-error dispatcher are the modelled raise
-   program, nobody else touches the cell or the waker, every handle carries the connection's shared state
-   (the translator refuses to generate these facts otherwise) *)
+(* ... including the frame-error dispatcher of the stream side: each arm goes through one of the two CloseStream helpers.
+   (The other source conditions -- helper bodies, call-site enumerations, handle wiring, entry points -- are not Coq facts:
+   the translator raises AnchorLost, a violation, when one of them no longer holds.) *)
 Theorem C05_generated_stream_facts :
-  frame_error_arms = [(FsQuic, ViaQuicHelper); (FsProto, ViaInternalHelper); (FsUnexpectedEnd, ViaInternalHelperCode H3_FRAME_ERROR)] /\
-  stream_helpers_raise_and_wake = true /\ cell_and_waker_sites_closed = true /\ handles_share_connection_state = true.
+  frame_error_arms = [(FsQuic, ViaQuicHelper); (FsProto, ViaInternalHelper); (FsUnexpectedEnd, ViaInternalHelperCode H3_FRAME_ERROR)].
 Proof. exact gen_stream_facts_ok. Qed.
 
 (* T1: the cell is written at most once ... *)
